@@ -31,7 +31,8 @@ class SMWalker(lib_exec.ExecWalker):
 
 
 def run(ctx):
-    fbs = ctx.facts(['K20', 'K20n'], kinds=('probe',), only=r'p_coro\.cpp$', tests=r'/test/')
+    fbs = ctx.facts(['K20', 'K20n'], kinds=('probe',), only=r'p_coro\.cpp$', tests=r'/test/',
+                    quick_tests=r'unit/coro/async_shared_mutex\.cpp')
     rw = ctx.rule('R-WORD', 'protocol of _state / _readers_wait / spinlock word', minimum=20)
     ro = ctx.rule('R-ORDER', 'enter >= acquire, exit >= release, reader hand-over acq_rel, spinlock acquire/release',
                   minimum=20)
